@@ -13,10 +13,13 @@ import (
 	"encoding/json"
 	"fmt"
 	"net/http/httptest"
+	"net/url"
 	"os"
 	"strings"
 
 	"github.com/caddyserver/caddy/v2"
+	"github.com/caddyserver/caddy/v2/caddyconfig"
+	_ "github.com/caddyserver/caddy/v2/caddyconfig/httpcaddyfile"
 	"github.com/caddyserver/caddy/v2/modules/caddyhttp"
 
 	"verif/harness/internal/core"
@@ -191,6 +194,303 @@ func runHost(line string, f []string) core.Outcome {
 				break
 			}
 		}
+	}
+	return o
+}
+
+// ---------------------------------------------------------------- templates behind respond
+//
+// httptpl <bodyTmpl> <X-In> <q> <secret>: a provisioned server with `templates` in front of
+// `static_response` (Content-Type text/plain, body bodyTmpl). Two stages by configuration: the replacer
+// expands the body (ReplaceKnown), then the templates handler EXECUTES the result as a Go template. The
+// cases keep to the one template action the model covers, {{placeholder "key"}} / {{ph "key"}} (both sides
+// answer `unsupported` when the expanded body has any other `{{`). Answer: ok <response body>.
+
+var tplPieces = []string{
+	"{{placeholder \"http.request.header.X-In\"}}", "{{ph \"http.request.uri.query.q\"}}", "{{placeholder \"env." + secretEnv + "\"}}",
+	"{{ph \"file." + rwFile + "\"}}", "{{placeholder \"zz.unk\"}}", "{http.request.header.X-In}", "{http.request.uri.query.q}", "{zz.unk}",
+	"a", " ", "}}", "{", "}", "\\{", "x=", "|", "{http.request.header.X-In", "{{ph \"http.vars.v\"}}",
+}
+
+var tplAttacker = []string{
+	"", "plain", "{env." + secretEnv + "}", "{{placeholder \"env." + secretEnv + "\"}}", "{{ph \"http.request.uri.query.q\"}}",
+	"{file." + rwFile + "}", "{{ph \"file." + rwFile + "\"}}", "}}", "{http.request.header.X-In}", "x}}y", "{{ph \"zz.unk\"}}",
+}
+
+func genTpl(rng *core.Rand, emit func(string)) {
+	var sb strings.Builder
+	for j := 1 + rng.Intn(5); j > 0; j-- {
+		sb.WriteString(rng.Pick(tplPieces))
+	}
+	emit(fmt.Sprintf("httptpl %s %s %s %s", core.Hex(sb.String()), core.Hex(rng.Pick(tplAttacker)), core.Hex(rng.Pick(tplAttacker)),
+		core.Hex(rng.Pick([]string{"S3CR3T-ENV-9942", "S3CR3T-ENV-9942", ""}))))
+}
+
+// tplSupported: every `{{` of s starts {{placeholder "KEY"}} or {{ph "KEY"}} with KEY over [A-Za-z0-9._-].
+func tplSupported(s string) bool {
+	for {
+		i := strings.Index(s, "{{")
+		if i < 0 {
+			return true
+		}
+		s = s[i:]
+		var rest string
+		switch {
+		case strings.HasPrefix(s, "{{placeholder \""):
+			rest = s[len("{{placeholder \""):]
+		case strings.HasPrefix(s, "{{ph \""):
+			rest = s[len("{{ph \""):]
+		default:
+			return false
+		}
+		j := 0
+		for j < len(rest) && (rest[j] == '.' || rest[j] == '_' || rest[j] == '-' || rest[j] >= '0' && rest[j] <= '9' || rest[j] >= 'A' && rest[j] <= 'Z' || rest[j] >= 'a' && rest[j] <= 'z') {
+			j++
+		}
+		if j == 0 || !strings.HasPrefix(rest[j:], "\"}}") {
+			return false
+		}
+		s = rest[j+3:]
+	}
+}
+
+func runTpl(line string, f []string) core.Outcome {
+	bad := core.Outcome{Impl: "bad-op"}
+	var v [4]string
+	for i := 0; i < 4; i++ {
+		s, err := core.UnHex(f[i+1])
+		if err != nil {
+			return bad
+		}
+		v[i] = s
+	}
+	bodyT, xin, q, secret := v[0], v[1], v[2], v[3]
+	if !isASCII(v[:]...) {
+		return bad
+	}
+	os.Setenv(secretEnv, secret)
+	defer os.Unsetenv(secretEnv)
+	consFiles()
+	o := core.Outcome{Tags: []string{"op:httptpl"}}
+	// the expanded body, computed independently, decides whether the case is inside the modelled fragment
+	{
+		_, repl := consRequest(xin, q, "/")
+		if !tplSupported(repl.ReplaceKnown(bodyT, "")) {
+			o.Impl = "unsupported"
+			o.Tags = append(o.Tags, "trivial")
+			return o
+		}
+	}
+	cfgv := map[string]any{"servers": map[string]any{"s": map[string]any{
+		"listen": []string{":0"}, "automatic_https": map[string]any{"disable": true},
+		"routes": []any{map[string]any{"handle": []any{
+			map[string]any{"handler": "templates"},
+			map[string]any{"handler": "static_response", "headers": map[string]any{"Content-Type": []string{"text/plain"}}, "body": bodyT},
+		}}},
+	}}}
+	raw, _ := json.Marshal(cfgv)
+	b, err := zooBaseCtx()
+	if err != nil {
+		return core.Outcome{Impl: "err:harness"}
+	}
+	ctx, cancel := caddy.NewContext(b)
+	defer cancel()
+	app, err := ctx.LoadModuleByID("http", json.RawMessage(raw))
+	if err != nil {
+		o.Impl = "err:provision"
+		return o
+	}
+	req := httptest.NewRequest("GET", "http://example.test/", nil)
+	req.URL.RawQuery = "q=" + url.QueryEscape(q)
+	req.RequestURI = req.URL.RequestURI()
+	req.Header["X-In"] = []string{xin}
+	rec := httptest.NewRecorder()
+	func() {
+		defer func() {
+			if p := recover(); p != nil {
+				rec.Body.WriteString(fmt.Sprint("PANIC:", p))
+			}
+		}()
+		app.(*caddyhttp.App).Servers["s"].ServeHTTP(rec, req)
+	}()
+	if rec.Code != 200 {
+		o.Impl = fmt.Sprintf("err:status %d", rec.Code)
+		return o
+	}
+	out := rec.Body.String()
+	o.Impl = "ok " + core.Hex(out)
+	if strings.Contains(bodyT, "{{") {
+		o.Tags = append(o.Tags, "tpl:configured-action")
+	}
+	if strings.Contains(xin+q, "{{") {
+		o.Tags = append(o.Tags, "tpl:attacker-value-has-action")
+	}
+	// oracle: the file provider is not available inside templates, and what a template action inserted is
+	// final — a secret shows up only if the text that stage 2 executed names it
+	if strings.Contains(out, fileContent) {
+		o.Failures = append(o.Failures, core.Failure{Class: "template-reads-file-placeholder",
+			What: fmt.Sprintf("templates behind respond %q (X-In=%q q=%q): the response %q contains the content of the secret file — {file.*} must not be available to template actions", bodyT, xin, q, out)})
+	}
+	if len(secret) >= 8 && strings.Contains(out, secret) && !strings.Contains(bodyT+xin+q, "\"env."+secretEnv+"\"") && !strings.Contains(bodyT, "{env."+secretEnv+"}") {
+		o.Failures = append(o.Failures, core.Failure{Class: "template-output-rescanned",
+			What: fmt.Sprintf("templates behind respond %q (X-In=%q q=%q): the response %q contains $%s although neither the configured body nor the executed text names it in an action — an inserted value was scanned again", bodyT, xin, q, out, secretEnv)})
+	}
+	return o
+}
+
+// ---------------------------------------------------------------- Caddyfile {$ENV} in front of the replacer
+//
+// cfenv <bodySrc> <$VERIF_C18_CF | !> <X-In> <secret>: the REAL Caddyfile adapter on
+//     { admin off; auto_https off }   http://example.test { respond "B:<bodySrc>" }
+// with the process environment VERIF_C18_CF (unset for "!") / VERIF_C18_SECRET, then the adapted http app is
+// provisioned and serves one request. `{$NAME}` is spliced into the text at adapt time, `{env.NAME}` is
+// looked up per request. Answer: ok <response body>.
+
+const cfEnvName = "VERIF_C18_CF"
+
+var cfBodyPieces = []string{
+	"{$" + cfEnvName + "}", "{$" + cfEnvName + "}", "{env." + cfEnvName + "}", "{env." + cfEnvName + "}", "{$" + cfEnvName + ":dflt}",
+	"{$VERIF_C18_UNSET}", "{$VERIF_C18_UNSET:{http.request.header.X-In}}", "{$" + secretEnv + "}", "{http.request.header.X-In}",
+	"{$}", "{$:x}", "a", "-", "|", "{zz.unk}", "{env." + secretEnv + "}", "}", "{", "{${$" + cfEnvName + "}}",
+}
+
+var cfValues = []string{
+	"plain", "{http.request.header.X-In}", "{http.request.header.X-In}", "{env." + secretEnv + "}", "{$" + secretEnv + "}", "", "a b", "}", "{",
+	"{zz.unk}", "x{http.request.header.X-In}y",
+}
+
+func genCfEnv(rng *core.Rand, emit func(string)) {
+	var sb strings.Builder
+	for j := 1 + rng.Intn(4); j > 0; j-- {
+		sb.WriteString(rng.Pick(cfBodyPieces))
+	}
+	val := core.Hex(rng.Pick(cfValues))
+	if rng.Chance(1, 8) {
+		val = "!"
+	}
+	emit(fmt.Sprintf("cfenv %s %s %s %s", core.Hex(sb.String()), val,
+		core.Hex(rng.Pick([]string{"plain", "{env." + secretEnv + "}", "", "xin-{zz.unk}", "{$" + secretEnv + "}"})),
+		core.Hex(rng.Pick([]string{"S3CR3T-ENV-9942", "S3CR3T-ENV-9942", ""}))))
+}
+
+func cfLexSafe(s string) bool {
+	for i := 0; i < len(s); i++ {
+		if c := s[i]; c == '"' || c == '\\' || c == '\n' || c == '\r' || c == '`' || c < 32 || c >= 0x80 {
+			return false
+		}
+	}
+	return true
+}
+
+func cfSpansClose(s string) bool {
+	for i := 0; i+1 < len(s); i++ {
+		if s[i] == '{' && s[i+1] == '$' && !strings.Contains(s[i+1:], "}") {
+			return false
+		}
+	}
+	return true
+}
+
+func runCfEnv(line string, f []string) core.Outcome {
+	bad := core.Outcome{Impl: "bad-op"}
+	var v [4]string
+	for i := 0; i < 4; i++ {
+		if i == 1 && f[2] == "!" {
+			continue
+		}
+		s, err := core.UnHex(f[i+1])
+		if err != nil {
+			return bad
+		}
+		v[i] = s
+	}
+	bodySrc, val, xin, secret := v[0], v[1], v[2], v[3]
+	unset := f[2] == "!"
+	if !cfLexSafe(bodySrc) || !cfLexSafe(val) || !cfLexSafe(secret) || !isASCII(xin) || !cfSpansClose(bodySrc) {
+		return bad
+	}
+	if unset {
+		os.Unsetenv(cfEnvName)
+	} else {
+		os.Setenv(cfEnvName, val)
+	}
+	os.Setenv(secretEnv, secret)
+	defer os.Unsetenv(cfEnvName)
+	defer os.Unsetenv(secretEnv)
+	consFiles()
+
+	o := core.Outcome{Tags: []string{"op:cfenv"}}
+	src := "{\n\tadmin off\n\tauto_https off\n}\nhttp://example.test {\n\trespond \"B:" + bodySrc + "\"\n}\n"
+	adapter := caddyconfig.GetAdapter("caddyfile")
+	if adapter == nil {
+		return core.Outcome{Impl: "err:harness"}
+	}
+	cfgJSON, _, err := adapter.Adapt([]byte(src), map[string]any{"filename": "Caddyfile"})
+	if err != nil {
+		o.Impl = "err:adapt"
+		return o
+	}
+	var whole struct {
+		Apps map[string]json.RawMessage `json:"apps"`
+	}
+	if json.Unmarshal(cfgJSON, &whole) != nil || whole.Apps["http"] == nil {
+		o.Impl = "err:adapt"
+		return o
+	}
+	b, err := zooBaseCtx()
+	if err != nil {
+		return core.Outcome{Impl: "err:harness"}
+	}
+	ctx, cancel := caddy.NewContext(b)
+	defer cancel()
+	app, err := ctx.LoadModuleByID("http", whole.Apps["http"])
+	if err != nil {
+		o.Impl = "err:provision"
+		return o
+	}
+	var srv *caddyhttp.Server
+	for _, s := range app.(*caddyhttp.App).Servers {
+		srv = s
+	}
+	req := httptest.NewRequest("GET", "http://example.test/", nil)
+	req.Host = "example.test"
+	req.Header["X-In"] = []string{xin}
+	rec := httptest.NewRecorder()
+	func() {
+		defer func() {
+			if p := recover(); p != nil {
+				rec.Body.WriteString(fmt.Sprint("PANIC:", p))
+			}
+		}()
+		srv.ServeHTTP(rec, req)
+	}()
+	out := rec.Body.String()
+	o.Impl = "ok " + core.Hex(out)
+	if strings.Contains(bodySrc, "{$"+cfEnvName) {
+		o.Tags = append(o.Tags, "cf:parse-time-env")
+	}
+	if strings.Contains(bodySrc, "{env."+cfEnvName+"}") {
+		o.Tags = append(o.Tags, "cf:run-time-env")
+	}
+	if strings.ContainsAny(val, "{}") {
+		o.Tags = append(o.Tags, "cf:value-has-braces")
+	}
+	// oracle: request data (X-In) is data at every stage — the secret shows up only if the Caddyfile source or
+	// the adapting process's environment value names it
+	if len(secret) >= 8 && strings.Contains(out, secret) && !strings.Contains(bodySrc+"\x00"+val, secretEnv) {
+		o.Failures = append(o.Failures, core.Failure{Class: "caddyfile-env-stage-expands-request-text",
+			What: fmt.Sprintf("respond %q with $%s=%q, X-In=%q: the response %q contains $%s, which neither the Caddyfile nor the variable's value names — request text was expanded", "B:"+bodySrc, cfEnvName, val, xin, out, secretEnv)})
+	}
+	// oracle: the parse-time stage is single-pass too — a `{$…}` inside the spliced VALUE is not substituted
+	if len(secret) >= 8 && strings.Contains(out, secret) && !strings.Contains(bodySrc, secretEnv) && !strings.Contains(val, "{env."+secretEnv+"}") {
+		o.Failures = append(o.Failures, core.Failure{Class: "caddyfile-env-value-rescanned",
+			What: fmt.Sprintf("respond %q with $%s=%q: the response %q contains $%s although only the VALUE of $%s names it as {$…} — the spliced value was searched for {$…} again", "B:"+bodySrc, cfEnvName, val, out, secretEnv, cfEnvName)})
+	}
+	// oracle: with the variable used at RUN time only, its value is data
+	if !strings.Contains(bodySrc, "{$") && strings.Contains(bodySrc, "{env."+cfEnvName+"}") && !unset && len(secret) >= 8 &&
+		strings.Contains(out, secret) && !strings.Contains(bodySrc, secretEnv) {
+		o.Failures = append(o.Failures, core.Failure{Class: "caddyfile-env-stage-expands-request-text",
+			What: fmt.Sprintf("respond %q with $%s=%q: {env.%s} is a run-time placeholder, its value must stay text, but the response %q contains $%s", "B:"+bodySrc, cfEnvName, val, cfEnvName, out, secretEnv)})
 	}
 	return o
 }
